@@ -398,6 +398,29 @@ impl FsState {
     }
 }
 
+impl FsState {
+    /// For a dirty file: the (complete writes kept, bytes of the next write kept) pairs whose
+    /// resulting file length is a multiple of `block` (cuts that land exactly on a block boundary).
+    pub fn block_boundary_cuts(&self, rel: &str, block: u64) -> Vec<(usize, usize)> {
+        let mut out = vec![];
+        if let Some(id) = self.ns.get(rel) {
+            let ino = &self.inodes[*id];
+            for (j, (off, data, is_trunc)) in ino.unsynced.iter().enumerate() {
+                if *is_trunc || data.is_empty() {
+                    continue;
+                }
+                let end = *off + data.len() as u64;
+                let mut b = (*off / block + 1) * block;
+                while b < end {
+                    out.push((j, (b - *off) as usize));
+                    b += block;
+                }
+            }
+        }
+        out
+    }
+}
+
 pub fn root_string(p: &Path) -> String {
     std::fs::canonicalize(p).unwrap_or_else(|_| PathBuf::from(p)).to_string_lossy().to_string()
 }
